@@ -83,6 +83,10 @@ def permuted(m, rng):
         return g
     ctcs = list(m["ctcs"])
     rng.shuffle(ctcs)
+    if rng.random() < 0.5:
+        # the names stay where they were while the formulas move (a reader that numbers constraints by position gives
+        # this for two documents listing the same constraints in another order): a constraint's name is a label
+        ctcs = [(n0, a) for (n0, _a0), (_n, a) in zip(m["ctcs"], ctcs)]
     return dict(root=pf(m["root"]), ctcs=ctcs)
 
 
